@@ -55,8 +55,8 @@ C05_INVS = "AtMostOnce ExactlyOnce TrUnbiased KeptRowsFactorGE1 NoSampleAgentKep
 C06_INVS = ("FitsNothingSampled FairShare FixedWithinBudget FairShareRemaining TrKeptWithinBudget TrMonotone "
             "QuotaProportional QuotaFitIsSize TrQuotaWithinTotal")
 
-QUICK = ["flat", "wide", "tree", "keys", "bud", "agent", "quota", "any", "anybud"]
-THOROUGH = ["flat", "flat_big", "wide", "wide_big", "tree", "tree_big", "treefloor_big", "keys_big", "bud_big", "agent_big", "quota",
+QUICK = ["flat", "wide", "fixfirst", "tree", "keys", "bud", "agent", "quota", "any", "anybud"]
+THOROUGH = ["flat", "flat_big", "wide", "wide_big", "fixfirst", "fixfirst_big", "tree", "tree_big", "treefloor_big", "keys_big", "bud_big", "agent_big", "quota",
             "quota_big", "any_big", "anybud_big"]
 
 
